@@ -143,6 +143,36 @@ def seminaive_negative_control(workdir):
     return "SemiNaive with DropLastVariant violates SemiNaiveCorrect on lag_right as expected"
 
 
+def _drop_last_variant(pl):
+    for s in pl:
+        shape = lambda ln: (tuple(ln["heads"]), tuple((i["k"], i["rel"]) for i in ln["items"]))
+        for k in range(len(s["lines"]) - 1, -1, -1):
+            if sum(1 for ln in s["lines"] if shape(ln) == shape(s["lines"][k])) > 1:
+                del s["lines"][k]
+                return
+
+
+def codeplan_negative_controls(progs, codeplan, workdir):
+    """The model must reject wrong plans: (1) not_reorderable with every simple join marked reorderable, (2) lag_right
+    without the last compiled variant of its recursive rule. Returns a description; raises ToolError if a wrong plan passes."""
+    import copy
+    done = []
+    for name, mutate, what in (
+            ("not_reorderable", lambda pl: [ln.update(nr=False) for s in pl for ln in s["lines"]], "every simple join marked reorderable"),
+            ("lag_right", _drop_last_variant, "last variant of the rule with two dynamic clauses dropped")):
+        p = next((q for q in progs if q["name"] == name), None)
+        if p is None or name not in codeplan:
+            continue
+        pl = copy.deepcopy(codeplan[name])
+        mutate(pl)
+        wd = os.path.join(workdir, "cpneg_" + name)
+        res, _ = enumerate_inputs([p], wd, "quick", workers=4, timeout=600, seminaive=True, codeplan={name: pl})
+        if not res.cpfail:
+            raise ToolError(f"negative control failed: the model accepts the plan of {name} with {what}")
+        done.append(f"{name} with {what}: rejected on {len(res.cpfail)} of the enumerated inputs")
+    return done
+
+
 def parse_summary(text):
     """`Program::summary()` -> list of dict(looping, dynamic, rules, variants)"""
     sccs = []
